@@ -3,6 +3,8 @@ package main
 import (
 	"encoding/json"
 	"fmt"
+	"os"
+	"os/exec"
 	"sort"
 	"strings"
 	"sync"
@@ -325,6 +327,12 @@ var defOpKinds = []string{"Def.Lex", "Def.LexString", "Def.LexBytes", "Def.Symbo
 
 func runConcurrency(rc *RunCtx) *Violation {
 	capAbort.Store(false)
+	if simrt.Choose(64) == 1 && buildOrderChecked {
+		rc.probe("build-order clause: two option sets of one grammar type, built in either order in two processes")
+		if buildOrderMismatch != "" {
+			return &Violation{Signature: "iso/build-order", Detail: buildOrderMismatch}
+		}
+	}
 	delims := runDelims(rc.seed)
 	simrt.ShuffleMaps = true
 	sharedParseOpts = []participle.ParseOption{participle.Trace(discardSink{})}
@@ -918,6 +926,7 @@ var syncProf struct {
 }
 
 func warmConc() {
+	warmBuildOrder()
 	syncProf.docs = map[string][]string{}
 	fixed := [3]string{"WARMa", "WARMb", "WARMc"}
 	for _, list := range [][]*world{coreWorlds, miniWorlds, exampleWorlds, exampleWorlds2} {
@@ -947,4 +956,91 @@ func warmConc() {
 		}
 	}
 	capAbort.Store(false)
+}
+
+// ---------------------------------------------------------------------------------------------
+// Build-order clause: what a parser computes does not depend on which other parsers were built
+// earlier in the process.  The isolated reference of O-iso is a fresh instance in THIS process; a
+// process-wide cache keyed too coarsely would poison it alike.  So, for the worlds that have a
+// second option set for the same grammar type, the worker asks a fresh process of its own binary
+// (which builds the two option sets in the opposite order) for its results and compares.
+// ---------------------------------------------------------------------------------------------
+
+// variantResults builds, per world with an altBuild, the two option sets in the given order and
+// renders the result of every document under both.
+func variantResults(altFirst bool) map[string]string {
+	out := map[string]string{}
+	fixed := [3]string{"VARa", "VARb", "VARc"}
+	for _, list := range [][]*world{coreWorlds, miniWorlds, exampleWorlds, exampleWorlds2} {
+		for _, w := range list {
+			if w.altBuild == nil {
+				continue
+			}
+			var normal, alt PH
+			if altFirst {
+				alt = w.altBuild(buildOpts{})
+				normal = w.build(buildOpts{})
+			} else {
+				normal = w.build(buildOpts{})
+				alt = w.altBuild(buildOpts{})
+			}
+			for _, d := range w.docs {
+				x := instantiate(d.text, fixed)
+				for name, p := range map[string]PH{"normal": normal, "alt": alt} {
+					p := p
+					var desc string
+					simrt.RunInline(func() {
+						simrt.OpBegin(2000000)
+						desc = call(func() (interface{}, error) { return p.ParseString("variant", x) }).desc()
+						simrt.OpEnd(0)
+					})
+					out[w.name+"/"+name+"/"+d.name] = desc
+				}
+			}
+		}
+	}
+	capAbort.Store(false)
+	return out
+}
+
+func refVariantsMain() {
+	b, _ := json.Marshal(variantResults(true))
+	os.Stdout.Write(b)
+}
+
+// buildOrderMismatch is computed once per process (warm-up): "" or a description of the first
+// difference between this process (normal option set built first) and a fresh process (the other
+// option set built first).
+var buildOrderMismatch string
+var buildOrderChecked bool
+
+func warmBuildOrder() {
+	local := variantResults(false)
+	if len(local) == 0 {
+		return
+	}
+	cmd := exec.Command(os.Args[0], "refvariants")
+	cmd.Env = os.Environ()
+	outb, err := cmd.Output()
+	if err != nil {
+		fmt.Fprintf(os.Stderr, "verifsim: refvariants process failed: %v\n", err)
+		os.Exit(2)
+	}
+	remote := map[string]string{}
+	if err := json.Unmarshal(outb, &remote); err != nil {
+		fmt.Fprintf(os.Stderr, "verifsim: refvariants output unreadable: %v\n", err)
+		os.Exit(2)
+	}
+	buildOrderChecked = true
+	keys := make([]string, 0, len(local))
+	for k := range local {
+		keys = append(keys, k)
+	}
+	sort.Strings(keys)
+	for _, k := range keys {
+		if local[k] != remote[k] {
+			buildOrderMismatch = fmt.Sprintf("%s: this process (which built the world's usual option set first and the other one second) returns %s; a fresh process that built them in the opposite order returns %s", k, clip(local[k], 300), clip(remote[k], 300))
+			return
+		}
+	}
 }
